@@ -1,12 +1,15 @@
 CFG = {
     "jobs": lambda tier: [
         J("scaled", "c02-comp --aspect C02", imports="Base Stream Inst Run RunFsComp", shard=20),
-        J("scaled", "c02"),
+        J("scaled", "c02", imports="Base Stream Inst Run RunFsComp RunFsStack RunHdr"),
+        J("scaled", "c02-small", imports="Base Stream Inst Run RunHdr"),
+        J("prod", "c02-small", imports="Base Stream Inst Run RunHdr"),
     ],
-    "run_modules": ["RunFsComp"],
+    "run_modules": ["RunFsComp", "RunFsStack", "RunHdr"],
     "rule": "scaled constants (CACHE=512, CHUNK=64, BLOCK=256): generated archives (1-4 interleaved files, pieces of boundary sizes, "
-            "4 layer combinations); EVERY cut point of the layer-less and encrypted archives in quick (every byte: inside the header, "
-            "a block tag, an id, a name, a content, a hash, between blocks, inside the footer) and a stride for compressed ones; "
+            "4 layer combinations); EVERY cut point of EVERY archive - layer-less, encrypted, compressed, compressed+encrypted - in quick (every byte: inside the header, "
+            "a block tag, an id, a name, a content, a hash, between blocks, inside the footer; with compression: inside a compressed block, at its end, "
+            "inside the SizesInfo footer) and every third cut in thorough, ALL of them model-compared (compressed ones too: repair_comp / repair_comp_enc); "
             "for encrypted archives both authenticated and unauthenticated recovery; non-trivial = the cut lies in the body and at "
             "least one block was recovered; distinct = distinct (archive, cut, mode)",
     "rule_fscomp": 'c02-comp (scaled, BLOCK=256, FSBUF=32): 40 (quick) / 160 (thorough) compressed-only layer streams of 0..3*BLOCK+20 bytes (fixed lengths 0, 1, BLOCK-1, BLOCK, BLOCK+1, 2*BLOCK, 3*BLOCK+20, then random), entropy {runs, text, random} x levels {0, 5, 11}, written in random pieces, every second one with flush() after random pieces; for each stream EVERY truncation length of the wire x read sizes {1, 7, 32, 4096}: the real CompressionLayerFailSafeReader run to the first Ok(0)/error; oracles: no panic / termination, output is a prefix of the plaintext, output == exactly what brotli (driven directly) decodes from the available bytes and the expected end status; decoder laws observed on the real decoder; model comparison (fscomp_read_all: total output and end status) at 7 cuts per stream (random, in-body, first block end -1/0/+1, in-footer, full) with a random read size and inner quota {memory, 1, 3 bytes/read}',
@@ -17,7 +20,15 @@ CFG = {
                    "file carries an original name and a prefix of its content, files not reported unfinished are complete, "
                    "EndOfOriginalArchiveData only if everything was recovered; correspondence: status, unfinished names and the "
                    "complete re-read (list, hashes, contents) of the archive repaired by the real convert_to_archive equal the "
-                   "model's repair_plain / repair_enc on the same bytes; oracle: names subset, prefix, completeness, EndOfData "
+                   "model's repair_plain / repair_enc on the same bytes, and for archives with the COMPRESS layer (alone, and over encryption in "
+                   "both decryption modes) the model's repair_comp / repair_comp_enc (theories/RunFsStack.v): the repair loop over "
+                   "FsCompStream.FsComp (the model of CompressionLayerFailSafeReader) over the cursor / over the fail-safe decryptor with "
+                   "concrete AES-GCM, with the greedy table-driven decoder instance of RunFsComp.v - brotli is tabulated per archive by the "
+                   "harness without mla (encryption removed with the aes-gcm crate, blocks cut with the layer's sizes table, for every prefix "
+                   "of every compressed block the number of bytes brotli's streaming decoder has produced); compared at every cut: stopping "
+                   "status, unfinished names (sorted), and per file the recovered bytes through the re-read rows (list, hash, full read) of "
+                   "the repaired archive; the real decoder's emission schedule differs from the greedy one, which the rows do not depend on "
+                   "(fs_comp_sched_indep, ComposeFsComp.repair_fscomp_exact); oracle: names subset, prefix, completeness, EndOfData "
                    "clause checked on the real implementation against the generating plan",
     "explanation_fscomp": 'compressed archives (props/C02.v, C02_fs_comp_*): under DecoderLaws, for every prefix w of blocks ++ footer, any inner source delivering w with any short reads, any read sizes: the fail-safe decompression reader (faithful model of read/read_pass incl. cache, offsets, the four BrotliResult arms, D4-D6 repairs) terminates (fuel 2|w|+2 passes per read) with Ok(0)/UnexpectedEof/InvalidData, never crashes, delivers a prefix of the plaintext and exactly fs_spec(w) = plaintext of the whole blocks ++ D(partial block) (maximality: D4-D6). Composition with C02_repair_sound_any_prefix: the delivered bytes are a prefix of the block stream. Tie B: model (greedy table-driven decoder instance, D tabulated from the real decoder) == real reader on total output and end status.',
     "trusted_base": ["DecoderLaws (theories/CompFailSafeProofs.v), assumed of brotli's streaming decoder and observed on the real decoder by job c02-comp (fscomp.rs::check_laws, random input slices and output room): D x = maximal output decodable from the consumed bytes x, fin x = x is exactly one complete stream; fin [] = false; fin is prefix-free; D is monotone; a call consumes <= the input and produces <= the room; never consumes past the end of a complete stream; everything emitted so far is a prefix of D(consumed); ResultSuccess only with exactly one complete stream consumed and nothing pending; NeedsMoreInput only with all input consumed and (room exhausted or nothing pending); NeedsMoreOutput only with the room exhausted and something pending; ResultFailure never on bytes consistent with a complete stream. No assumption on how much one call emits otherwise.", 'the bytes after the last compressed block (SizesInfo footer) are `dead` for a fresh decoder: no output and no complete stream on any prefix (complete EMPTY streams inside the footer are covered by listing them as blocks); checked for every generated stream by c02-comp (tail_fail_at)'],
@@ -31,3 +42,15 @@ CFG = {
 # work package fscomp: the fail-safe decompression reader (appended to the texts above)
 CFG["rule"] += "; " + CFG.pop("rule_fscomp")
 CFG["explanation"] += " || " + CFG.pop("explanation_fscomp")
+
+# work package hdrsrc: the header is part of the model-compared input
+CFG["rule"] += ("; job c02 hands the model the archive prefix INCLUDING the header (RunHdr.repair_archive_kn / every 16th case repair_archive "
+                "with the model's own ECIES unwrap in oracle mode for X25519): cuts inside the magic, the version, the persistent configuration and "
+                "the key-wrap table are model-compared rows; c02-small (scaled AND production constants): 2 (quick) / 6 (thorough) tiny archives x "
+                "layers {none, ENCRYPT} (one short chunk), ~16 cuts each (header, block edges, inside the chunk, inside its tag, footer, intact), "
+                "both modes, from memory and through a 3-byte-per-read source, all model-compared")
+CFG["explanation"] = CFG.get("explanation", "") + (" || whole archive (props/C02.v C02_archive_cut_sound, theories/ArchiveSrcRepair.v): for every cut of "
+                "header ++ body (layers none / ENCRYPT) and any source refining a cursor over the prefix, ArchiveFailSafeReader::from_config + "
+                "convert_to_archive (ArchiveSrc.failsafe_repair: streamed header read, load_config, fail-safe stack over the SAME source, repair) "
+                "returns UnexpectedEof (cut < 7), DeserializationError (cut inside the configuration) or the result C02_repair_cut_sound / "
+                "C02_repair_encrypted_cut_sound describe (or an exhibited tag collision on a wrapped key)")
